@@ -115,9 +115,36 @@ uint64_t runCaseOnce(Ctx& c, long idx, wl::Sink& sink, std::string* labels, std:
 
 uint64_t gFold = 0x20;
 
+// The same fixed workload run during static initialisation (this translation unit is linked in front of the library, so
+// its initialisers run before the library's) and again inside case 0: a library object with dynamic initialisation that
+// is used before it has been constructed is state that has not been initialised yet.
+uint64_t fixedWorkloadDigest()
+{
+    wl::State st;
+    wl::DigestSink s;
+    Rng r(0x20C0FFEEULL);
+    for (int i = 0; i < 600; ++i)
+        wl::step(st, r, s, i % 6);
+    return s.h ^ (s.count << 1);
+}
+const uint64_t gDigestBeforeMain = fixedWorkloadDigest();
+
 void caseFn(Ctx& c, long idx)
 {
     c.note("workload case " + std::to_string(idx) + " seed " + std::to_string(c.seed));
+    if (idx == 0)
+    {
+        const uint64_t now = fixedWorkloadDigest();
+        ++c.evaluations;
+        c.count("workload_steps_also_run_before_main", 600);
+        if (now != gDigestBeforeMain)
+        {
+            char buf[200];
+            snprintf(buf, sizeof buf, "a fixed workload of 600 steps gives output digest %016llx when run during static initialisation and %016llx when run from main()",
+                     (unsigned long long) gDigestBeforeMain, (unsigned long long) now);
+            c.violation("C20:outputs-depend-on-when-the-library-is-called", buf, "fixed workload, seed 0x20C0FFEE");
+        }
+    }
     if (RUNNING_ON_VALGRIND)
     {
         CheckSink s(c);
